@@ -8,8 +8,8 @@ import (
 
 // RunC15 is the deadlines-and-cancellation check.
 func RunC15(r *mon.Run) {
-	r.Rule = "(a) grpc-timeout strings (every digit length x unit x {zeros, leading zeros, nines, powers of ten}, the clamping boundaries, every string of length <= 3 over the alphabet \"" + smallAlphabet + "\", PRNG-generated legal and malformed strings) are served in-process on the gRPC and gRPC-web paths; the method handler records ctx.Deadline() and an invocation counter and the deadline is compared with logical bounds computed in big integers. (b) cancellation scenarios over a real larking server: (transport grpc-go / raw h2c gRPC / raw h2c HTTP / HTTP/1 gRPC-web / HTTP/1 HTTP) x (unary, client-, server-, bidi-streaming) x handler state at the moment of the client's cancel (before first Recv, waiting on ctx.Done, between messages then Recv/Send, blocked in Recv, blocked in Send behind a full flow-control window) x cancel mechanism (context cancel, request-body abort = RST_STREAM, TCP close / reset) x optional grpc-timeout; every handler step, the client's cancel event and net/http's own cancellation of the request context are logged in one ordered log. distinct = timeout (protocol, class, unit, #digits) shapes plus cancellation (transport, shape, state, timeout?, mechanism) cells whose release was observed after the cancel event"
-	r.Floor = r.Pick(120, 150)
+	r.Rule = "(a) grpc-timeout strings (every digit length x unit x {zeros, leading zeros, nines, powers of ten}, the clamping boundaries, every string of length <= 3 over the alphabet \"" + smallAlphabet + "\", PRNG-generated legal and malformed strings) are served in-process on the gRPC and gRPC-web paths; the method handler records ctx.Deadline() and an invocation counter and the deadline is compared with logical bounds computed in big integers. (b) cancellation scenarios over a real larking server: (transport grpc-go / raw h2c gRPC / raw h2c HTTP / HTTP/1 gRPC-web / HTTP/1 HTTP) x (unary, client-, server-, bidi-streaming) x handler state at the moment of the client's cancel (before first Recv, waiting on ctx.Done, between messages then Recv/Send, blocked in Recv, blocked in Send behind a full flow-control window) x cancel mechanism (context cancel, request-body abort = RST_STREAM, TCP close / reset) x optional grpc-timeout. Both parts run on muxes with the on/off masks of (unary interceptor, stream interceptor, stats handler) installed - interceptors are larking's context-decorating NewUnaryContext/NewStreamContext helpers (the handler runs under a derived context) or pass-through ones, the stats handler derives a context in TagRPC: every cancellation cell and enumerated timeout string under all-off, all-on and one further mask in rotation (quick) or all masks (thorough); deadlines are read both at the method handler's entry and inside the user handler behind the interceptor; every handler step, the client's cancel event and net/http's own cancellation of the request context are logged in one ordered log. distinct = timeout (protocol, class, unit, #digits, method, option mask) shapes plus cancellation (transport, shape, state, timeout?, option mask, mechanism) cells whose release was observed after the cancel event"
+	r.Floor = r.Pick(400, 900)
 	r.Assume("time.Now() readings taken in one process are ordered by the monotonic clock; the deadline bounds t_call+T <= deadline <= t_handler_entry+T need no assumption on machine speed")
 	r.Assume("a handler that is not released counts as a violation only when net/http had already cancelled the request context handed to larking (recorded by a pass-through handler in front of the mux) and 15 s passed; otherwise the scenario is inconclusive")
 	r.Assume("over HTTP/1 net/http notices a disconnect only after the request body has been consumed (or on a failing read/write); scenarios are restricted to those")
